@@ -612,6 +612,11 @@ pub fn must_hold(f: &F, what: &str) {
                 model: None,
             });
         }
+        if let F::A(Atom::Eq(x, y)) = f {
+            if x == y {
+                return None; // the same constant
+            }
+        }
         let a = e.f_ast(f);
         let na = e.z3.as_ref().unwrap().not(a);
         if e.solver_check_with(na) == L_FALSE {
